@@ -291,6 +291,23 @@ func judgeC08(c C08Case) *Fail {
 	if lo && !hi {
 		return failf("firing-monotone-in-probability", "entry %d fires with probability %v but not with %v (same seed and position)", t, math.Min(p1, c.P2), math.Max(p1, c.P2))
 	}
+	// (g) ... and on nothing else, in particular not on the requests decided before: the full list fires alike after
+	// a shorter list with the same seed and after a request with another seed
+	if len(onlyEnabled) >= 2 {
+		other := deepCopyM(withBiases(m, onlyEnabled)).(M)
+		other["biasApplyRandomSeed"] = num(m["biasApplyRandomSeed"]) + 1
+		full := withBiases(m, onlyEnabled)
+		k := 1 + c.Target%(len(onlyEnabled)-1)
+		c08Decide(other)
+		c08Decide(withBiases(m, onlyEnabled[:k]))
+		rA := c08Decide(full)
+		c08Decide(other)
+		rB := c08Decide(full)
+		if rA.out.OK != rB.out.OK || rA.out.Body != rB.out.Body {
+			return failf("firing-independent-of-history", "the same request is answered differently after a request with the first %d of its biases (same seed) and after a request with another seed:\n %s\n %s", k, rA.out.Body, rB.out.Body)
+		}
+		st.inc("C08:history-variant-checked")
+	}
 	if len(en) >= 2 && inner {
 		st.nontrivial("C08", c.Req)
 		st.sample("C08", M{"request": m, "fired": base.fired})
